@@ -351,3 +351,55 @@ fn s_ipfix_data_dispatch() {
     core::mem::forget(r);
     core::mem::forget(p);
 }
+
+/// Exact kernel model on the domain "unsigned field declared >= 8 bytes, fewer than 8 bytes
+/// available": the read fails (illegal width => Fail, else Eof), nothing is consumed.
+pub fn short_read_kernel_model<'a>(
+    remaining: &'a [u8],
+    ty: netflow_parser::variable_versions::data_number::FieldDataType,
+    len: u16,
+) -> nom::IResult<&'a [u8], netflow_parser::variable_versions::data_number::FieldValue> {
+    assert!(ty == netflow_parser::variable_versions::data_number::FieldDataType::UnsignedDataNumber);
+    assert!(len >= 8 && remaining.len() < 8);
+    Err(nom::Err::Error(nom::error::Error::new(remaining, nom::error::ErrorKind::Eof)))
+}
+
+/// S with the REAL ipfix::Data::parse / OptionsData::parse on a data set that cannot be
+/// decoded (body shorter than the record): the set is refused and - C06 - the template it
+/// refers to is still cached afterwards, unchanged (templates are never evicted).
+#[kani::proof]
+#[kani::stub(core::fmt::write, no_fmt)]
+#[kani::stub(netflow_parser::variable_versions::data_number::FieldValue::from_field_type, short_read_kernel_model)]
+fn s_ipfix_undecodable_data_keeps_template() {
+    const N: usize = 4 + 7;
+    let mut p = IPFixParser::default();
+    let l0: u16 = kani::any();
+    kani::assume(l0 >= 8 && l0 != 65535);
+    let is_opt: bool = kani::any();
+    let f = TemplateField { field_type_number: 1, field_type: IPFixField::OctetDeltaCount, field_length: l0, enterprise_number: None };
+    if is_opt {
+        p.options_templates.insert(300, OptionsTemplate { template_id: 300, field_count: 1, scope_field_count: 1, fields: vec![f], padding: vec![] });
+    } else {
+        p.templates.insert(300, Template { template_id: 300, field_count: 1, fields: vec![f], padding: vec![] });
+    }
+    let mut buf: [u8; N] = kani::any();
+    buf[0] = 1;
+    buf[1] = 44;
+    let len = be16(&buf, 2);
+    kani::assume(len as usize <= N);
+    let r = FlowSet::parse(&buf, &mut p);
+    assert!(r.is_err());
+    if is_opt {
+        assert!(p.options_templates.len() == 1 && p.templates.len() == 0);
+        let t = p.options_templates.get(&300).unwrap();
+        assert!(t.fields.len() == 1 && t.fields[0].field_length == l0);
+    } else {
+        assert!(p.templates.len() == 1 && p.options_templates.len() == 0);
+        let t = p.templates.get(&300).unwrap();
+        assert!(t.fields.len() == 1 && t.fields[0].field_length == l0);
+    }
+    kani::cover!(is_opt && len == 4);
+    kani::cover!(!is_opt && len == 11);
+    core::mem::forget(r);
+    core::mem::forget(p);
+}
